@@ -395,7 +395,7 @@ void run_setup(u64 seed) {
     G.fair = false; memset(G.fault_fired, 0, sizeof G.fault_fired);
     G.fp = 0xcbf29ce484222325ull; G.interactions = 0; G.races = 0; G.race_pc_a = G.race_pc_b = 0;
     memset(G.cells, 0, sizeof G.cells); memset(G.chan, 0, sizeof G.chan); G.sc_fence.clear();
-    G.note[0] = 0; G.note_len = 0; G.cfg = dsim::Config(); G.deadlock_cb = nullptr; G.n_end_cb = 0; G.done = 0;
+    G.soft = false; G.note[0] = 0; G.note_len = 0; G.cfg = dsim::Config(); G.deadlock_cb = nullptr; G.n_end_cb = 0; G.done = 0;
     obj_next = 1; ring_n = 0;
     if (!G.replay_dec) {
         G.faults_on = (xnext(G.rng_dec) & 1) != 0;
@@ -418,6 +418,15 @@ int run_one(u64 seed) {
     G.run_active = false;
     for (int i = 0; i < G.nth; i++) pthread_join(G.th[i].pt, nullptr);
     for (int i = 0; i < G.n_end_cb; i++) G.end_cb[i]();
+    if (G.soft && !G.warmup) {
+        if (!G.batch_mode) violation(G.soft_cls, "%s", G.soft_msg);
+        static int soft_printed; G.soft_total++;
+        if (soft_printed++ >= 3) return ST_VIOLATION;
+        tl_in_rt++;
+        oprintf("{\"t\":\"V\",\"soft\":1,\"class\":"); ojson_str(G.soft_cls); oprintf(",\"msg\":"); ojson_str(G.soft_msg); oprintf(","); emit_run_fields(); oprintf("}\n");
+        tl_in_rt--;
+        return ST_VIOLATION;
+    }
     if (G.cfg.leak_check && !G.warmup && heap_live_blocks()) heap_report_leaks_and_fail();
     return ST_OK;
 }
@@ -451,6 +460,11 @@ void plan_note(const char *fmt, ...) {
 void fail(const char *oracle, const char *fmt, ...) {
     static char msg[4096]; va_list ap; va_start(ap, fmt); vsnprintf(msg, sizeof msg, fmt, ap); va_end(ap);
     violation(oracle, "%s", msg);
+}
+void soft_fail(const char *oracle, const char *fmt, ...) {
+    if (G.soft) return;
+    G.soft = true; snprintf(G.soft_cls, sizeof G.soft_cls, "%s", oracle);
+    va_list ap; va_start(ap, fmt); vsnprintf(G.soft_msg, sizeof G.soft_msg, fmt, ap); va_end(ap);
 }
 extern "C" void dsim_skip_exit(const char *why);
 void skip(const char *why) { dsim_skip_exit(why); __builtin_unreachable(); }
